@@ -27,8 +27,9 @@ package objline
 
 //@ func ReadUint16
 //@   props C06 C17 C18
-//@   requires p != nil && p.r != nil && p.buf != nil && 0 <= p.pos && p.pos <= 576460752303423488 && u != nil
+//@   requires p != nil && p.r != nil && p.buf != nil && 0 <= p.pos && p.pos <= 1152921504606846976 && u != nil
 //@   modifies p.pos, region(bufreg(p.buf)), stream(p.r), *u
+//@   ensures pos(p.r) >= old(pos(p.r)) && p.pos == old(p.pos) + pos(p.r) - old(pos(p.r)) && (err == nil ==> pos(p.r) == old(pos(p.r)) + 2)
 //@   ensures [C18] err == nil ==> *u == sbe16(p.r, old(pos(p.r))) && pos(p.r) == old(pos(p.r)) + 2 && n == 2
 //@   ensures [C18] streamClean(p.r) && old(avail(p.r)) >= 2 ==> err == nil
 
